@@ -13,8 +13,8 @@ var propOrder = []string{"C01", "C02", "C03", "C04", "C05", "C06", "C07", "C08",
 
 var props = map[string]*PropDef{
 	"C01": {
-		Rules:      []string{"MATRIX", "KIND-1", "DEPTH-1", "MAPCACHE-1", "TXN-1", "CASE-SYM", "NUMSTATE-1", "TXN-2", "TXN-3", "PAIR-1", "FULL-1", "SURR-1", "EOF-1", "CTRL-1", "GUARD-1"},
-		Decided:    "the sibling recognisers (token path, value path, raw-value path) agree on which checks exist and which option controls them (duplicate names under exactly AllowDuplicateNames, UTF-8 validation unless exactly AllowInvalidUTF8, string-only names, exhaustive kind dispatch with failing defaults, the RFC 8259 start-byte table); the depth limit is the same in all six guards and each guard is evaluated on every path; io.EOF is only produced at depth 1; the duplicate-name set stays complete when it switches to a map; hexadecimal/exponent letters are matched case-insensitively; the resumable number scanner's resume states match what it consumed. Also: name namespaces are pushed and popped in balance and never mutated on a rejected ReadToken/ReadValue; a two-byte marker such as \\u is matched with a consistent ==&&== / !=||!= test; scanner validators' consumed length is never discarded; utf16.DecodeRune's verdict is checked; io.EOF is only produced at depth 1 on an identity test with the scanner's own sentinel. Every ordered comparison with 0x20 in the scanners keeps the space itself on the non-control side. Short-circuit length guards in front of constant indexes are exact in the tokenizer packages.",
+		Rules:      []string{"MATRIX", "KIND-1", "DEPTH-1", "MAPCACHE-1", "TXN-1", "CASE-SYM", "NUMSTATE-1", "TXN-2", "TXN-3", "PAIR-1", "FULL-1", "SURR-1", "EOF-1", "CTRL-1", "GUARD-1", "WS-2", "DEPTH-2"},
+		Decided:    "the sibling recognisers (token path, value path, raw-value path) agree on which checks exist and which option controls them (duplicate names under exactly AllowDuplicateNames, UTF-8 validation unless exactly AllowInvalidUTF8, string-only names, exhaustive kind dispatch with failing defaults, the RFC 8259 start-byte table); the depth limit is the same in all six guards and each guard is evaluated on every path; io.EOF is only produced at depth 1; the duplicate-name set stays complete when it switches to a map; hexadecimal/exponent letters are matched case-insensitively; the resumable number scanner's resume states match what it consumed. Also: name namespaces are pushed and popped in balance and never mutated on a rejected ReadToken/ReadValue; a two-byte marker such as \\u is matched with a consistent ==&&== / !=||!= test; scanner validators' consumed length is never discarded; utf16.DecodeRune's verdict is checked; io.EOF is only produced at depth 1 on an identity test with the scanner's own sentinel. Every ordered comparison with 0x20 in the scanners keeps the space itself on the non-control side. Short-circuit length guards in front of constant indexes are exact in the tokenizer packages. Whitespace scanners accept exactly space, tab, LF, CR (all 256 byte values evaluated); a container arm of the value dispatch never succeeds without the depth-guard host.",
 		NotDecided: "that each lexical recogniser accepts exactly its RFC production (index arithmetic of ConsumeString/ConsumeNumber beyond the structural facts above).",
 		Technique:  "sibling-implementation matrix over type-checked syntax; constant/table evaluation; path-sensitive go/cfg dataflow for guards",
 	},
@@ -25,8 +25,8 @@ var props = map[string]*PropDef{
 		Technique:  "path-sensitive go/cfg dataflow over finite atoms; guard dominance; sink/producer audit",
 	},
 	"C03": {
-		Rules:      []string{"ANYPATH-1", "INTERN-1", "NUMCONV-1", "CASE-SYM", "NS-1", "STALE-2", "POOL-2", "VERB-1", "GLOBAL-2", "PAIR-1", "SURR-1", "INDEX-1"},
-		Decided:    "the untyped fast routes are entered only under their documented guards and use the same primitives as the generic route (strconv.ParseFloat with 64 bits for every decoded float, makeString for strings, own duplicate check for objects); the string cache can only return a string equal to the input; \\u escapes are case-insensitive; the any-applicability marker of caller functions is accumulated over joined lists. Client code never reads a transient decoder view after the decoder moved on; isVerbatim arguments come from the scanner's verdict on the same bytes; no shared package-level map/slice can reach a result; pooled namespace state is reset unconditionally.",
+		Rules:      []string{"ANYPATH-1", "INTERN-1", "NUMCONV-1", "CASE-SYM", "NS-1", "STALE-2", "POOL-2", "VERB-1", "GLOBAL-2", "PAIR-1", "SURR-1", "INDEX-1", "FLAGJOIN-1"},
+		Decided:    "the untyped fast routes are entered only under their documented guards and use the same primitives as the generic route (strconv.ParseFloat with 64 bits for every decoded float, makeString for strings, own duplicate check for objects); the string cache can only return a string equal to the input; \\u escapes are case-insensitive; the any-applicability marker of caller functions is accumulated over joined lists. Client code never reads a transient decoder view after the decoder moved on; isVerbatim arguments come from the scanner's verdict on the same bytes; no shared package-level map/slice can reach a result; pooled namespace state is reset unconditionally. Scan verdicts (ValueFlags) are only joined, never overwritten, and survive a resumed scan.",
 		NotDecided: "unescaping and float rounding themselves (value-level), equality of the trees produced by the different routes for all inputs.",
 		Technique:  "guard dominance; value-provenance tracing over definitions; path-sensitive equality tracking in makeString",
 	},
@@ -37,8 +37,8 @@ var props = map[string]*PropDef{
 		Technique:  "sibling agreement between marshal/unmarshal closures; table evaluation",
 	},
 	"C05": {
-		Rules:      []string{"STALE-1", "TXN-1", "TXN-2", "TXN-3", "NAMES-1", "BUF-1", "PEEK-1", "NUMSTATE-1", "STALE-2", "ERR-1", "POISON-1", "EOF-1"},
-		Decided:    "no buffer-relative position or alias is used after a call that may refill/move the decode buffer; a failed ReadToken/ReadValue leaves the abstract decoder state untouched and PeekKind/CheckNextValue never advance it (so retrying after a transient read error is sound); names are copied out before the buffer changes; fetch rebases baseOffset/prevEnd/prevStart consistently; the peek cache is consumed exactly once; the resumable number scanner resumes in a state that matches what it consumed. Client code in json/v1 never reads a ReadValue result after a later decoder call; no coder error is dropped; the poison byte is always undone when names are copied; a clean EOF is derived by identity from the scanner's sentinel only.",
+		Rules:      []string{"STALE-1", "TXN-1", "TXN-2", "TXN-3", "NAMES-1", "BUF-1", "PEEK-1", "NUMSTATE-1", "STALE-2", "ERR-1", "POISON-1", "EOF-1", "FLAGJOIN-1"},
+		Decided:    "no buffer-relative position or alias is used after a call that may refill/move the decode buffer; a failed ReadToken/ReadValue leaves the abstract decoder state untouched and PeekKind/CheckNextValue never advance it (so retrying after a transient read error is sound); names are copied out before the buffer changes; fetch rebases baseOffset/prevEnd/prevStart consistently; the peek cache is consumed exactly once; the resumable number scanner resumes in a state that matches what it consumed. Client code in json/v1 never reads a ReadValue result after a later decoder call; no coder error is dropped; the poison byte is always undone when names are copied; a clean EOF is derived by identity from the scanner's sentinel only. Scan verdicts (ValueFlags) are only joined, never overwritten; accumulators of resumable scanners live outside the resume loop.",
 		NotDecided: "equality of token sequences for all read schedules; the arithmetic of the resumable string scanner.",
 		Technique:  "path-sensitive go/cfg dataflow with inter-procedural taint (positions/aliases) and recomputed effect summaries",
 	},
@@ -61,14 +61,14 @@ var props = map[string]*PropDef{
 		Technique:  "guard dominance; path-sensitive go/cfg dataflow; sibling matrix",
 	},
 	"C09": {
-		Rules:      []string{"V1-1", "V1-2", "V1-3", "V1-4", "OPT-1", "FLAGSYM-1", "ADDR-1", "FULL-1", "FLAGPAIR-1", "DEADFIELD-1", "NUMWIDTH-1", "V1-5", "NULL-1"},
-		Decided:    "every entry from v1 into the v2 API runs under DefaultOptionsV1 (or the explicit legacy set for the syntax-only helpers) and coder option fields are only extended; each v1 default flag has a constructor and is read by the implementation; under legacy error semantics the next value is syntax-checked before the target is touched; the streaming Decoder's offset flags are reset together; the v1 constants are consistent; marshal/unmarshal honour the two-sided legacy options symmetrically. The forcedAddr bit of every addressableValue matches its provenance (scratch copy / dereferenced pointer / part of parent), which is what v1's method-calling rules depend on; a scanner used as validator covers the whole input. The legacy pre-validation is given unmarshalDecode's own `last` flag; flags required together are never tested with one masked Get; conversions use the type's width; no latch field (v1 Encoder's sticky error) is left unwritten. Test-then-set option guards of the v1 coders test the option they set; the forcedAddr bit is not forged by indirect(). A quoted or bare null leaves bool/number/string destinations unchanged under MergeWithLegacySemantics, in every scalar arshaler alike.",
+		Rules:      []string{"V1-1", "V1-2", "V1-3", "V1-4", "OPT-1", "FLAGSYM-1", "ADDR-1", "FULL-1", "FLAGPAIR-1", "DEADFIELD-1", "NUMWIDTH-1", "V1-5", "NULL-1", "V1-6", "SKIP-1"},
+		Decided:    "every entry from v1 into the v2 API runs under DefaultOptionsV1 (or the explicit legacy set for the syntax-only helpers) and coder option fields are only extended; each v1 default flag has a constructor and is read by the implementation; under legacy error semantics the next value is syntax-checked before the target is touched; the streaming Decoder's offset flags are reset together; the v1 constants are consistent; marshal/unmarshal honour the two-sided legacy options symmetrically. The forcedAddr bit of every addressableValue matches its provenance (scratch copy / dereferenced pointer / part of parent), which is what v1's method-calling rules depend on; a scanner used as validator covers the whole input. The legacy pre-validation is given unmarshalDecode's own `last` flag; flags required together are never tested with one masked Get; conversions use the type's width; no latch field (v1 Encoder's sticky error) is left unwritten. Test-then-set option guards of the v1 coders test the option they set; the forcedAddr bit is not forged by indirect(). A quoted or bare null leaves bool/number/string destinations unchanged under MergeWithLegacySemantics, in every scalar arshaler alike. v1 Compact/Indent/HTMLEscape write nothing to the caller's buffer when they fail; a non-fatal error under legacy reporting never leaves the value unconsumed.",
 		NotDecided: "behavioural equality with the toolchain's encoding/json (a comparison of executions; static analysis of one side says nothing about the other), e.g. the indentation placeholder arithmetic of v1.Indent.",
 		Technique:  "provenance of option arguments; sibling agreement; path-sensitive must-precede",
 	},
 	"C10": {
-		Rules:      []string{"NUMWIDTH-1", "NUMCONV-1", "CASE-SYM", "FULL-1"},
-		Decided:    "only the width and routing clauses: every float/integer format or parse call uses the width of the Go type (t.Bits() inside the arshaler factories; a constant 32/64 only where the operand has that width by type; forwarded width parameters), decoded floats come from strconv.ParseFloat, integer targets parse digits only (jsonwire.ParseUint) and compare the magnitude against a bound derived from the width, the unsigned parser sees the whole literal so a minus sign cannot be skipped, and exponent/hex letters are recognised in both cases.",
+		Rules:      []string{"NUMWIDTH-1", "NUMCONV-1", "CASE-SYM", "FULL-1", "FLOATCONST-1"},
+		Decided:    "only the width and routing clauses: every float/integer format or parse call uses the width of the Go type (t.Bits() inside the arshaler factories; a constant 32/64 only where the operand has that width by type; forwarded width parameters), decoded floats come from strconv.ParseFloat, integer targets parse digits only (jsonwire.ParseUint) and compare the magnitude against a bound derived from the width, the unsigned parser sees the whole literal so a minus sign cannot be skipped, and exponent/hex letters are recognised in both cases. No float is compared with an integer constant its type cannot represent; float32 tokens are formatted with 32 bits.",
 		NotDecided: "everything arithmetic: that the shortest decimal is produced, that rounding is correct, that the bounds are exactly 2^(bits-1) and 2^bits-1 (an off-by-one in a bound is invisible to these rules), ECMA-262 layout, Token.Int/Uint/Float saturation and truncation values. These need evaluation or a solver (another technique family).",
 		Technique:  "type-resolved call-site enumeration with argument provenance",
 	},
@@ -79,8 +79,8 @@ var props = map[string]*PropDef{
 		Technique:  "table evaluation; sink/producer audit; guard-set extraction",
 	},
 	"C12": {
-		Rules:      []string{"FORMAT-1", "WIDTH-1", "TABLE-ESC", "TXN-2", "DEPTH-1", "WS-1", "MATRIX", "POOL-1", "POOL-3", "ESCSET-1", "CTRL-1"},
-		Decided:    "Value.format/AppendFormat store or append the result only after WriteValue succeeded (src unchanged on error, no rewrite when identical); the presets pass exactly their documented options before the caller's; reformat* only appends slices of the source, structural constants, indentation and the output of ReformatString/ReformatNumber, with verbatim copies guarded by the simple scanners; the raw-value path applies the same duplicate/UTF-8/depth checks as the other recognisers; a rejected WriteValue appends nothing; the scratch encoder is pooled correctly and its buffer is copied out. The control-character boundary (< 0x20) is the same in every recogniser.",
+		Rules:      []string{"FORMAT-1", "WIDTH-1", "TABLE-ESC", "TXN-2", "DEPTH-1", "WS-1", "MATRIX", "POOL-1", "POOL-3", "ESCSET-1", "CTRL-1", "WS-2", "V1-6"},
+		Decided:    "Value.format/AppendFormat store or append the result only after WriteValue succeeded (src unchanged on error, no rewrite when identical); the presets pass exactly their documented options before the caller's; reformat* only appends slices of the source, structural constants, indentation and the output of ReformatString/ReformatNumber, with verbatim copies guarded by the simple scanners; the raw-value path applies the same duplicate/UTF-8/depth checks as the other recognisers; a rejected WriteValue appends nothing; the scratch encoder is pooled correctly and its buffer is copied out. The control-character boundary (< 0x20) is the same in every recogniser. Whitespace scanners accept exactly the four RFC 8259 characters; the v1 buffer helpers append nothing on failure.",
 		NotDecided: "semantic equality of input and output, fixed-point property (value-level).",
 		Technique:  "path-sensitive go/cfg dataflow; append-source audit; sibling matrix",
 	},
@@ -92,13 +92,13 @@ var props = map[string]*PropDef{
 	},
 	"C14": {
 		Rules:      []string{"NULL-1", "MERGE-1", "ANYPATH-1", "GLOBAL-2", "SCRATCH-1"},
-		Decided:    "every null branch zeroes its destination (unless MergeWithLegacySemantics) and returns nil; the non-merging untyped fast path is only taken for a nil interface; the slice closure zeroes reused elements and trims to the element count on every exit, the array closures zero the missing tail (including [N]byte from a binary string), the map closure seeds the scratch value from the existing entry and stores every entry back. No shared package-level map or slice can reach an unmarshal result. Scratch keys/values of member loops are reset before every decode; scalar null handling consults MergeWithLegacySemantics in every sibling.",
+		Decided:    "every null branch zeroes its destination (unless MergeWithLegacySemantics) and returns nil; the non-merging untyped fast path is only taken for a nil interface; the slice closure zeroes reused elements and trims to the element count on every exit, the array closures zero the missing tail (including [N]byte from a binary string), the map closure seeds the scratch value from the existing entry and stores every entry back. No shared package-level map or slice can reach an unmarshal result. Scratch keys/values of member loops are reset before every decode; scalar null handling consults MergeWithLegacySemantics in every sibling. What was decoded into a scratch value is written back on every path; MergeWithLegacySemantics can only suppress the zeroing of a null, never enable it.",
 		NotDecided: "the merge law over values.",
 		Technique:  "structural checks and path-sensitive must-follow",
 	},
 	"C15": {
 		Rules:      []string{"FIELD-1", "ALIAS-1", "UNWRITE-2", "UNWRITE-1", "MONO-1", "UNWRITE-3", "PREC-1", "SEENSET-1"},
-		Decided:    "each tag option is consumed where documented (omitzero/omitempty/string/format/casing/embed), the dominance sort compares name, depth, explicit-name in that order and keeps only dominant fields, emitted order is declaration order, the unmarshal closure prefers the exact-name index, reports ambiguity and limits ErrUnknownName to RejectUnknownMembers without a fallback, matchFoldedName implements the documented casing rules, field index paths are not aliased. avoidFlush keeps everything omitempty may need to take back in the buffer (truth table); a local initialised from an arshaler's nonDefault only grows. The seen-fields set only grows.",
+		Decided:    "each tag option is consumed where documented (omitzero/omitempty/string/format/casing/embed), the dominance sort compares name, depth, explicit-name in that order and keeps only dominant fields, emitted order is declaration order, the unmarshal closure prefers the exact-name index, reports ambiguity and limits ErrUnknownName to RejectUnknownMembers without a fallback, matchFoldedName implements the documented casing rules, field index paths are not aliased. avoidFlush keeps everything omitempty may need to take back in the buffer (truth table); a local initialised from an arshaler's nonDefault only grows. The seen-fields set only grows. The IsZero-method test is installed for every field (not only omitzero-tagged ones) and the same-struct name conflict is checked however the name was obtained.",
 		NotDecided: "the breadth-first search over runtime type graphs and the folding function itself.",
 		Technique:  "structural checks over type-checked syntax",
 	},
@@ -127,8 +127,8 @@ var props = map[string]*PropDef{
 		Technique:  "constant-table evaluation; path-sensitive check of constructors and scoping; sibling agreement of type switches",
 	},
 	"C20": {
-		Rules:      []string{"DEPTH-1", "CYCLE-1", "PANIC-1", "TXN-1", "TXN-2", "NAMES-1", "PEEK-1", "ERR-1", "WITHIN-1", "MERGE-1"},
-		Decided:    "the nesting limit is the same (off-by-one included) in all six guards and every guard is evaluated on every path of its function; every marshal recursion either pushes a container first or has a depth-independent cycle check, with visit/leave paired; explicit panics are classified and no function gained panic sites; the state/name bookkeeping whose violation leads to panics (rejected calls, names copied before buffers move) holds. No coder error is dropped (a loop that ignores a failing SkipValue never terminates); the peek cache is consumed exactly once. The `inside a user call` mark is removed on every path; a map key of interface type is only used after its dynamic type was found comparable.",
+		Rules:      []string{"DEPTH-1", "CYCLE-1", "PANIC-1", "TXN-1", "TXN-2", "NAMES-1", "PEEK-1", "ERR-1", "WITHIN-1", "MERGE-1", "SKIP-1", "DEPTH-2"},
+		Decided:    "the nesting limit is the same (off-by-one included) in all six guards and every guard is evaluated on every path of its function; every marshal recursion either pushes a container first or has a depth-independent cycle check, with visit/leave paired; explicit panics are classified and no function gained panic sites; the state/name bookkeeping whose violation leads to panics (rejected calls, names copied before buffers move) holds. No coder error is dropped (a loop that ignores a failing SkipValue never terminates); the peek cache is consumed exactly once. The `inside a user call` mark is removed on every path; a map key of interface type is only used after its dynamic type was found comparable. An unmarshal error positioned before the value is never returned unconsumed while legacy error reporting may be on (container loops would not terminate); no container arm bypasses the depth guard.",
 		NotDecided: "implicit panics (index, nil dereference); termination in general (e.g. fetch retries while a reader returns (0, nil)).",
 		Technique:  "path-sensitive go/cfg dataflow; recursion-progress analysis over marshal closures; classified site table",
 	},
